@@ -178,6 +178,14 @@ def check_case(spec: dict) -> dict:
         # expressions as regex_exclusions=... alone
         plain_alone = scan_outcome(base, exclusions=())
         r_alone = scan_outcome(base, regex_exclusions=tuple(regexes))
+        # the same patterns with a sub-directory as module_path (the shape of a loop over sub-packages with one shared
+        # exclusion tuple): first a directory whose own path matches, then one that survives
+        sub_runs = []
+        hit = [d for d in spec["dirs"] if any(M.glob_matches(g, f"{base}/{d}") for g in globs)][:1]
+        free = [d for d in spec["dirs"] if not any(M.glob_matches(g, f"{base}/{'/'.join(d.split('/')[:i])}") for g in globs
+                                                   for i in range(1, d.count("/") + 2))][:1]
+        for d in hit + free:
+            sub_runs.append((d, d in hit, scan_outcome(base, f"{base}/{d}", exclusions=tuple(globs))))
         # one pattern given as a plain string, as the documentation's example does
         g_str = scan_outcome(base, exclusions=globs[0]) if len(globs) == 1 else None
         r_str = scan_outcome(base, regex_exclusions=regexes[0]) if len(regexes) == 1 else None
@@ -219,6 +227,19 @@ def check_case(spec: dict) -> dict:
     if r_run[0] == "ok" and (r_alone[0] != "ok" or r_alone[1] != r_run[1]):
         v("regex/regex_exclusions-alone", f"regex_exclusions={regexes} alone gives {r_alone[1] if r_alone[0] != 'ok' else 'another architecture'}, "
           "together with exclusions=() it is applied")
+    for d, is_hit, run in sub_runs:
+        sdot = PS.dotted(root, d)
+        if is_hit:
+            want_sub = set()
+        else:
+            want_sub = {m for m in want_mods if M.is_self_or_desc(m, sdot)} | set(M.ancestors(sdot))
+        if run[0] != "ok":
+            if want_sub:
+                v("glob/sub-scan-error", f"module_path={sdot}, patterns {globs}: {run[1]}")
+        elif set(run[1][0]) != want_sub:
+            cls = "still-present" if set(run[1][0]) - want_sub else "wrongly-removed"
+            v(f"glob/sub-scan/modules-{cls}", f"module_path={sdot} ({'its own path matches' if is_hit else 'not excluded'}), patterns {globs}: "
+              f"modules {sorted(run[1][0])} != expected {sorted(want_sub)}")
     for name, got, want in (("exclusions", g_str, g_run), ("regex_exclusions", r_str, r_run)):
         if got is not None and want[0] == "ok" and (got[0] != "ok" or got[1] != want[1]):
             v(f"single-pattern-as-str/{name}", f"{name}=<the pattern as a plain str> gives {got[1] if got[0] != 'ok' else sorted(got[1][0])[:8]}, "
